@@ -16,8 +16,9 @@ CONSTANTS NCells,     \* number of grid cells (C order index 1..NCells)
 Cells == 1..NCells
 MapVals == -1..(NCells - 1)
 VARIABLES map,        \* [Cells -> MapVals]
-          outcome, hist
-vars == <<map, outcome, hist>>
+          outcome, hist,
+          touched     \* ghost: has anything been read since the last successful change (so that "read, then change" histories are explored)
+vars == <<map, outcome, hist, touched>>
 
 Max(S) == CHOOSE x \in S : \A y \in S : y <= x
 Bins(m) == Max({m[c] : c \in Cells}) + 1
@@ -25,13 +26,13 @@ Bins(m) == Max({m[c] : c \in Cells}) + 1
 FromMask(mk) == [c \in Cells |-> IF mk[c] THEN Cardinality({d \in Cells : d < c /\ mk[d]}) ELSE -1]
 Identity == [c \in Cells |-> c - 1]
 
-Init == map = Identity /\ outcome = "ok" /\ hist = <<>>
+Init == map = Identity /\ outcome = "ok" /\ hist = <<>> /\ touched = FALSE
 Log(e) == hist' = Append(hist, e)
-SetMap(m) == map' = m /\ outcome' = "ok" /\ Log([op |-> "voxel_map", m |-> m])
-SetMask(mk) == map' = FromMask(mk) /\ outcome' = "ok" /\ Log([op |-> "mask", m |-> mk])
+SetMap(m) == map' = m /\ outcome' = "ok" /\ touched' = FALSE /\ Log([op |-> "voxel_map", m |-> m])
+SetMask(mk) == map' = FromMask(mk) /\ outcome' = "ok" /\ touched' = FALSE /\ Log([op |-> "mask", m |-> mk])
 \* an array of the wrong shape is refused and changes nothing
-SetWrongShape(which) == outcome' = "ValueError" /\ UNCHANGED map /\ Log([op |-> which, m |-> "wrong-shape"])
-Read == outcome' = "ok" /\ UNCHANGED map /\ Log([op |-> "read", m |-> "-"])
+SetWrongShape(which) == outcome' = "ValueError" /\ UNCHANGED <<map, touched>> /\ Log([op |-> which, m |-> "wrong-shape"])
+Read == outcome' = "ok" /\ touched' = TRUE /\ UNCHANGED map /\ Log([op |-> "read", m |-> "-"])
 
 \* maps explored: one source per cell, merged sources, holes, a gap in the numbering (source 1 unused)
 Maps == {m \in [Cells -> MapVals] : \/ \A c1 \in Cells : m[c1] \in {-1, 0}
@@ -52,7 +53,7 @@ InvPartitions == LET iv == Inv(map) IN
 MaskRoundTrip == \A mk \in [Cells -> BOOLEAN] : \A c \in Cells : (FromMask(mk)[c] > -1) = mk[c]
 MaskNumbersConsecutively == \A mk \in [Cells -> BOOLEAN] : {FromMask(mk)[c] : c \in {d \in Cells : mk[d]}} = 0..(Cardinality({d \in Cells : mk[d]}) - 1)
 
-View == <<map, outcome>>
+View == <<map, outcome, touched>>
 Emit == PrintT(ToJson([h |-> hist', map |-> map', bins |-> Bins(map'), outcome |-> outcome',
                        inv |-> [s \in 0..(Bins(map') - 1) |-> {c \in Cells : map'[c] = s}]]))
 =============================================================================
